@@ -6,7 +6,6 @@ import (
 	"runtime"
 	"strconv"
 	"sync"
-	"sync/atomic"
 	"time"
 )
 
@@ -35,7 +34,7 @@ type schedTask struct {
 	name     string
 	gid      uint64
 	status   int32
-	resume   chan struct{}
+	resume   *parker
 	parkKind string // "precall" | "access" | "io"
 	body     func(t *schedTask)
 
@@ -43,11 +42,11 @@ type schedTask struct {
 	opIdx        int // index of the call in progress / about to start
 	opsDone      int
 	inCall       bool
-	callAccesses int          // accesses executed in the current call
-	pending      *accessRec   // access about to execute (parked before it)
-	readMaps     [2]bool      // maps read in the current call
-	wroteMaps    [2]bool      // maps written in the current call
-	blockedSeen  bool         // was seen blocked on a lock during the current call
+	callAccesses int        // accesses executed in the current call
+	pending      *accessRec // access about to execute (parked before it)
+	readMaps     [2]bool    // maps read in the current call
+	wroteMaps    [2]bool    // maps written in the current call
+	blockedSeen  bool       // was seen blocked on a lock during the current call
 	everBlocked  int
 	lockDepth    int // lock acquisitions seen (hook) in the current call
 }
@@ -58,20 +57,21 @@ type accessRec struct {
 }
 
 type sched struct {
-	tasks   []*schedTask
-	byGID   map[uint64]*schedTask // filled by start() before any task is resumed; read-only afterwards
-	seq     int64    // global event sequence number (history stamps)
-	steps   int
-	trace   func(format string, a ...interface{})
-	hang    bool
+	tasks      []*schedTask
+	byGID      map[uint64]*schedTask // filled by start() before any task is resumed; read-only afterwards
+	seq        int64                 // global event sequence number (history stamps)
+	steps      int
+	trace      func(format string, a ...interface{})
+	hang       bool
 	onConflict func(x, y *schedTask, a accessRec)
-	parkAt  func(t *schedTask, kind string) bool
+	parkAt     func(t *schedTask, kind string) bool
 }
 
+//go:norace
 func (s *sched) stamp() int64 { s.seq++; return s.seq }
 
 func (s *sched) addTask(name string, body func(t *schedTask)) *schedTask {
-	t := &schedTask{id: len(s.tasks), name: name, resume: make(chan struct{}, 1), body: body, status: stRunning}
+	t := &schedTask{id: len(s.tasks), name: name, resume: newParker(), body: body, status: stRunning}
 	s.tasks = append(s.tasks, t)
 	return t
 }
@@ -83,14 +83,15 @@ func (s *sched) addTask(name string, body func(t *schedTask)) *schedTask {
 // the runtime's wait reasons).
 func (s *sched) start() {
 	ids := make(chan *schedTask, len(s.tasks))
+	boot := make(chan struct{})
 	for _, t := range s.tasks {
 		t := t
 		go func() {
 			// deferred: a task unwound with runtime.Goexit (shutdown) finishes too
-			defer atomic.StoreInt32(&t.status, stFinished)
+			defer storeStatus(t, stFinished)
 			t.gid = curGID()
 			ids <- t
-			<-t.resume // released by start() once the table is complete
+			<-boot // released by start() once the table is complete
 			t.body(t)
 		}()
 	}
@@ -99,30 +100,32 @@ func (s *sched) start() {
 		t := <-ids
 		s.byGID[t.gid] = t
 	}
-	for _, t := range s.tasks {
-		t.resume <- struct{}{}
-	}
+	close(boot)
 }
 
+//go:norace
 func (t *schedTask) park(kind string) {
 	t.parkKind = kind
-	atomic.StoreInt32(&t.status, stParked)
-	<-t.resume
+	storeStatus(t, stParked)
+	t.resume.wait()
 }
 
+//go:norace
 func (s *sched) current() *schedTask {
 	return s.byGID[curGID()]
 }
 
 // settle waits until every task is parked, finished or blocked on a lock.
 // Returns false if that does not happen within the watchdog (a task spins).
+//
+//go:norace
 func (s *sched) settle() bool {
 	deadline := time.Now().Add(20 * time.Second)
 	spins := 0
 	for {
 		var running []*schedTask
 		for _, t := range s.tasks {
-			if atomic.LoadInt32(&t.status) == stRunning {
+			if loadStatus(t) == stRunning {
 				running = append(running, t)
 			}
 		}
@@ -169,29 +172,32 @@ func (s *sched) settle() bool {
 	}
 }
 
+//go:norace
 func (s *sched) runnable() []*schedTask {
 	var out []*schedTask
 	for _, t := range s.tasks {
-		if atomic.LoadInt32(&t.status) == stParked {
+		if loadStatus(t) == stParked {
 			out = append(out, t)
 		}
 	}
 	return out
 }
 
+//go:norace
 func (s *sched) unfinished() []*schedTask {
 	var out []*schedTask
 	for _, t := range s.tasks {
-		if atomic.LoadInt32(&t.status) != stFinished {
+		if loadStatus(t) != stFinished {
 			out = append(out, t)
 		}
 	}
 	return out
 }
 
+//go:norace
 func (s *sched) resume(t *schedTask) {
-	atomic.StoreInt32(&t.status, stRunning)
-	t.resume <- struct{}{}
+	storeStatus(t, stRunning)
+	t.resume.release()
 }
 
 // ---------------------------------------------------------------------------
